@@ -613,6 +613,8 @@ type env struct {
 	srv        *http.Server
 	cur        *trace
 	last       *captured
+	seen       []*captured // every request the origin received since the caller last cleared it
+	script     []int       // status codes the origin answers next (then 200)
 	clients    map[int]*req.Client
 	reqs       map[int]*req.Request
 	reqCl      map[int]int
@@ -678,10 +680,16 @@ func newEnv() *env {
 	e.srv = &http.Server{Handler: http.HandlerFunc(func(w http.ResponseWriter, q *http.Request) {
 		q.ParseForm()
 		e.last = &captured{path: q.URL.Path, query: q.URL.Query(), header: q.Header.Clone(), form: q.PostForm}
+		e.seen = append(e.seen, e.last)
 		if i := strings.Index(q.URL.Path, "/sc/"); i >= 0 {
 			http.SetCookie(w, &http.Cookie{Name: q.URL.Path[i+4:], Value: "1", Path: "/"})
 		}
-		w.WriteHeader(200)
+		// scripted answers (re-exec family: 503s that make the client retry), 200 otherwise
+		status := 200
+		if len(e.script) > 0 {
+			status, e.script = e.script[0], e.script[1:]
+		}
+		w.WriteHeader(status)
 	})}
 	go e.srv.Serve(e.ln)
 	return e
@@ -734,6 +742,14 @@ func (e *env) twrap(id int) req.HttpRoundTripWrapperFunc {
 }
 func (e *env) cond(id int) req.RetryConditionFunc {
 	return func(*req.Response, error) bool { e.cur.conds = append(e.cur.conds, id); return false }
+}
+
+// cond503 is a retry condition with an identity that asks for a retry on 503
+func (e *env) cond503(id int) req.RetryConditionFunc {
+	return func(resp *req.Response, err error) bool {
+		e.cur.conds = append(e.cur.conds, id)
+		return resp != nil && resp.Response != nil && resp.StatusCode == 503
+	}
 }
 func (e *env) hook(id int) req.RetryHookFunc {
 	return func(*req.Response, error) { e.cur.hooks = append(e.cur.hooks, id) }
